@@ -3,6 +3,7 @@
 From MPD Require Import Bytes Tables Show TagModel TagSpec DriverCmd DriverConn DriverFrame DriverLoop.
 From MPD Require Import Bytes Tables Show TagModel TagSpec DriverCmd DriverConn DriverFrame DriverSong.
 From MPD Require Import Bytes Tables Show TagModel TagSpec DriverCmd DriverConn DriverFrame DriverCommands.
+From MPD Require Import Bytes Tables Show TagModel TagSpec DriverCmd DriverConn DriverFrame DriverFilter.
 Open Scope N_scope.
 
 Definition find_tagv (ident : bytes) : option tagv :=
@@ -97,6 +98,7 @@ Definition dispatch (line : bytes) : bytes :=
     else if is_loop_kind kind then run_loop_kind kind args
     else if is_song_kind kind then run_songs kind args
     else if is_commands_kind kind then run_commands kind args
+    else if is_filter_kind kind then run_filter kind args
     else b "unknown-kind " ++ kind
   | [] => b "empty"
   end.
